@@ -15,7 +15,9 @@
 //!   CLOSE <c>                        drop the client's end
 //!   JOIN <c> <ms>                    wait for the connection task: done | panic | running
 //!   SLEEP <ms>
-//!   WRITE v4|v5 <kind> <props 0|1> [variant 0|1]   real Protocol::write + rumqttc decode of the bytes
+//!   WRITE v4|v5 <kind> <props 0|1> <variant 0|1> [sid=n] [cd=n] [ps=n] [tl=n] [rs=n]
+//!                                    real Protocol::write + rumqttc decode of the bytes; the options size the
+//!                                    subscription identifier / correlation data / payload / topic / reason string
 //!   END                              close everything, report panicked / stuck tasks
 //! Items (no spaces; values hex, "-" = empty): raw;<hex> | connect;id=..;ka=..;clean=..[;user=..;pass=..]
 //!   [;wt=..;wm=..;wq=..;wr=..][;v=4|5][;wdelay=..;sexp=..;tam=..] | subscribe;pkid=..;f=..;q=..[;sid=..] |
@@ -356,10 +358,15 @@ fn show5(p: &c5::Packet) -> String {
 /// `Protocol::write` of the real V4 / V5 writer on a packet of the given kind, with or without
 /// properties (variant 1 = a non-success reason code), then rumqttc's decoder of the same
 /// version on the bytes: `WRITE <Ok|Err|PANIC> hex=.. dec=.. rest=<undecoded bytes>`.
-fn write_probe(v5: bool, kind: &str, props: bool, variant: u8) -> String {
+fn write_probe(v5: bool, kind: &str, props: bool, variant: u8, opts: &HashMap<String, String>) -> String {
     use rumqttd::verif::protocol as bp;
     use rumqttd::verif::protocol::Protocol;
-    let up = || vec![("k".to_string(), "v".to_string())];
+    // boundary options: sid=<subscription identifier> cd=<correlation data bytes> ps=<payload bytes>
+    // tl=<topic bytes> rs=<reason string bytes>; with sid/cd/rs the property block holds only those
+    let opt = |k: &str| opts.get(k).map(|x| x.parse::<usize>().expect("number"));
+    let pattern = |n: usize| -> Vec<u8> { (0..n).map(|i| ((i * 7 + 1) % 256) as u8).collect() };
+    let rs = opt("rs").map(|n| "r".repeat(n));
+    let up = || if rs.is_some() { vec![] } else { vec![("k".to_string(), "v".to_string())] };
     let nz = variant == 1;
     let packet = match kind {
         "connect" => bp::Packet::Connect(
@@ -375,27 +382,41 @@ fn write_probe(v5: bool, kind: &str, props: bool, variant: u8) -> String {
         ),
         "connack" => bp::Packet::ConnAck(
             bp::ConnAck { session_present: false, code: if nz { bp::ConnectReturnCode::ClientIdentifierNotValid } else { bp::ConnectReturnCode::Success } },
-            if props { Some(bp::ConnAckProperties { topic_alias_max: Some(4096), ..Default::default() }) } else { None },
+            if props {
+                if rs.is_some() { Some(bp::ConnAckProperties { reason_string: rs.clone(), ..Default::default() }) } else { Some(bp::ConnAckProperties { topic_alias_max: Some(4096), ..Default::default() }) }
+            } else { None },
         ),
-        "publish" => bp::Packet::Publish(
-            rumqttd::verif::make_publish(false, bp::QoS::AtLeastOnce, 3, false, Bytes::from_static(b"t/a"), Bytes::from_static(b"pl")),
-            if props { Some(bp::PublishProperties { user_properties: up(), content_type: Some("x".into()), ..Default::default() }) } else { None },
-        ),
+        "publish" => {
+            let topic = match opt("tl") { Some(n) => Bytes::from("t".repeat(n)), None => Bytes::from_static(b"t/a") };
+            let payload = match opt("ps") { Some(n) => Bytes::from(pattern(n)), None => Bytes::from_static(b"pl") };
+            let pr = if !props {
+                None
+            } else if opt("sid").is_some() || opt("cd").is_some() {
+                Some(bp::PublishProperties {
+                    subscription_identifiers: opt("sid").into_iter().collect(),
+                    correlation_data: opt("cd").map(|n| Bytes::from(pattern(n))),
+                    ..Default::default()
+                })
+            } else {
+                Some(bp::PublishProperties { user_properties: up(), content_type: Some("x".into()), ..Default::default() })
+            };
+            bp::Packet::Publish(rumqttd::verif::make_publish(false, bp::QoS::AtLeastOnce, 3, false, topic, payload), pr)
+        }
         "puback" => bp::Packet::PubAck(
             bp::PubAck { pkid: 3, reason: if nz { bp::PubAckReason::NoMatchingSubscribers } else { bp::PubAckReason::Success } },
-            if props { Some(bp::PubAckProperties { reason_string: None, user_properties: up() }) } else { None },
+            if props { Some(bp::PubAckProperties { reason_string: rs.clone(), user_properties: up() }) } else { None },
         ),
         "pubrec" => bp::Packet::PubRec(
             bp::PubRec { pkid: 3, reason: if nz { bp::PubRecReason::NoMatchingSubscribers } else { bp::PubRecReason::Success } },
-            if props { Some(bp::PubRecProperties { reason_string: None, user_properties: up() }) } else { None },
+            if props { Some(bp::PubRecProperties { reason_string: rs.clone(), user_properties: up() }) } else { None },
         ),
         "pubrel" => bp::Packet::PubRel(
             bp::PubRel { pkid: 3, reason: if nz { bp::PubRelReason::PacketIdentifierNotFound } else { bp::PubRelReason::Success } },
-            if props { Some(bp::PubRelProperties { reason_string: None, user_properties: up() }) } else { None },
+            if props { Some(bp::PubRelProperties { reason_string: rs.clone(), user_properties: up() }) } else { None },
         ),
         "pubcomp" => bp::Packet::PubComp(
             bp::PubComp { pkid: 3, reason: if nz { bp::PubCompReason::PacketIdentifierNotFound } else { bp::PubCompReason::Success } },
-            if props { Some(bp::PubCompProperties { reason_string: None, user_properties: up() }) } else { None },
+            if props { Some(bp::PubCompProperties { reason_string: rs.clone(), user_properties: up() }) } else { None },
         ),
         "subscribe" => bp::Packet::Subscribe(
             bp::Subscribe {
@@ -406,7 +427,7 @@ fn write_probe(v5: bool, kind: &str, props: bool, variant: u8) -> String {
         ),
         "suback" => bp::Packet::SubAck(
             bp::SubAck { pkid: 3, return_codes: vec![if nz { bp::SubscribeReasonCode::Unspecified } else { bp::SubscribeReasonCode::Success(bp::QoS::AtLeastOnce) }] },
-            if props { Some(bp::SubAckProperties { reason_string: None, user_properties: up() }) } else { None },
+            if props { Some(bp::SubAckProperties { reason_string: rs.clone(), user_properties: up() }) } else { None },
         ),
         "unsubscribe" => bp::Packet::Unsubscribe(
             bp::Unsubscribe { pkid: 3, filters: vec!["t/#".into()] },
@@ -414,13 +435,13 @@ fn write_probe(v5: bool, kind: &str, props: bool, variant: u8) -> String {
         ),
         "unsuback" => bp::Packet::UnsubAck(
             bp::UnsubAck { pkid: 3, reasons: vec![if nz { bp::UnsubAckReason::NoSubscriptionExisted } else { bp::UnsubAckReason::Success }] },
-            if props { Some(bp::UnsubAckProperties { reason_string: None, user_properties: up() }) } else { None },
+            if props { Some(bp::UnsubAckProperties { reason_string: rs.clone(), user_properties: up() }) } else { None },
         ),
         "pingreq" => bp::Packet::PingReq(bp::PingReq),
         "pingresp" => bp::Packet::PingResp(bp::PingResp),
         "disconnect" => bp::Packet::Disconnect(
             bp::Disconnect { reason_code: if nz { bp::DisconnectReasonCode::MalformedPacket } else { bp::DisconnectReasonCode::NormalDisconnection } },
-            if props { Some(bp::DisconnectProperties { session_expiry_interval: None, reason_string: None, user_properties: up(), server_reference: None }) } else { None },
+            if props { Some(bp::DisconnectProperties { session_expiry_interval: None, reason_string: rs.clone(), user_properties: up(), server_reference: None }) } else { None },
         ),
         k => return format!("SCRIPT-ERROR kind {k}"),
     };
@@ -701,7 +722,15 @@ async fn command(w: &mut World, line: &str) -> String {
             let Some(c) = w.conn(t[1]) else { return "SCRIPT-ERROR no conn".into() };
             recv_line(c, 0, ms, Some(u)).await
         }
-        "WRITE" => write_probe(t[1] == "v5", t[2], t[3] == "1", t.get(4).map_or(0, |x| x.parse().unwrap_or(0))),
+        "WRITE" => {
+            let mut opts = HashMap::new();
+            for o in t.iter().skip(5) {
+                if let Some((k, v)) = o.split_once('=') {
+                    opts.insert(k.to_string(), v.to_string());
+                }
+            }
+            write_probe(t[1] == "v5", t[2], t[3] == "1", t.get(4).map_or(0, |x| x.parse().unwrap_or(0)), &opts)
+        }
         "HEX" => {
             // raw bytes until EOF or ms of silence (diagnostics; bypasses the decoder)
             let ms: u64 = t[2].parse().unwrap_or(1000);
